@@ -10,7 +10,7 @@ import copy
 
 from statham.schema.constants import NotPassed
 
-from sim import c15, gen, tprog
+from sim import c15, common, gen, tprog
 from sim.common import gen_perm, install_validator_order
 from sim.world import Built, attempt, class_entry, norm
 
@@ -141,12 +141,20 @@ def gen_case(rng):
     return case
 
 
-def exec_case(case, log, stats):
+def reference_outcomes(case):
     install_validator_order(case.get("perm"))
-    reference = []
+    out = []
     for ops in case["threads"]:
         alone = _family(case)
-        reference.append([_do(alone, op) for op in ops])
+        out.append([list(_do(alone, op)) for op in ops])
+    return out
+
+
+def exec_case(case, log, stats):
+    install_validator_order(case.get("perm"))
+    # each thread program alone - in another pristine process, so that here
+    # the threads are the first to use the family
+    reference = common.pristine("sim.c15t", "reference_outcomes", case)
     cold = _family(case)
     before = {e["id"]: c15.texts(cold.classes[e["id"]]) for e in case["initial"]}
     live = _family(case)
